@@ -5,6 +5,7 @@ import (
 	"sync"
 
 	"capnproto.org/go/capnp/v3"
+	"capnproto.org/go/capnp/v3/internal/verifhook"
 )
 
 // answerQueue is a queue of method calls to make after an earlier
@@ -69,10 +70,12 @@ func (aq *answerQueue) fulfill(s capnp.Struct) {
 	aq.bases[0].recv = capnp.ImmediateAnswer(aq.method, s).PipelineRecv
 	close(aq.draining)
 	aq.mu.Unlock()
+	verifhook.Yield(223)
 
 	// Drain queue.
 	embargoes := make([]returnEmbargoer, len(q))
 	for i := range q {
+		verifhook.Yield(224)
 		ent := &q[i]
 		recv := aq.bases[ent.basis].recv
 		embargoes[i].alloc = ent.Returner
@@ -123,6 +126,7 @@ func (aq *answerQueue) reject(e error) {
 	}
 	close(aq.draining)
 	aq.mu.Unlock()
+	verifhook.Yield(225)
 
 	// Drain queue by rejecting.
 	for i := range q {
@@ -145,11 +149,13 @@ type queueCaller struct {
 }
 
 func (qc queueCaller) PipelineRecv(ctx context.Context, transform []capnp.PipelineOp, r capnp.Recv) capnp.PipelineCaller {
+	verifhook.Yield(220)
 	qc.aq.mu.Lock()
 	switch {
 	case qc.aq.q != nil && len(qc.aq.q) == cap(qc.aq.q):
 		// Queue full.  Block until draining.
 		qc.aq.mu.Unlock()
+		verifhook.Yield(221)
 		select {
 		case <-qc.aq.draining:
 		case <-ctx.Done():
@@ -164,6 +170,7 @@ func (qc queueCaller) PipelineRecv(ctx context.Context, transform []capnp.Pipeli
 	case len(qc.aq.bases) > 0:
 		// Draining/drained.
 		qc.aq.mu.Unlock()
+		verifhook.Yield(222)
 		b := &qc.aq.bases[qc.basis]
 		select {
 		case <-b.ready:
@@ -182,6 +189,7 @@ func (qc queueCaller) PipelineRecv(ctx context.Context, transform []capnp.Pipeli
 		})
 		basis := len(qc.aq.q) - 1
 		qc.aq.mu.Unlock()
+		verifhook.Yield(226)
 		return queueCaller{aq: qc.aq, basis: basis}
 	}
 }
@@ -248,6 +256,7 @@ func (sr *structReturner) Return(e error) {
 	sr.returned = true
 	if e == nil {
 		sr.mu.Unlock()
+		verifhook.Yield(230)
 		if sr.p != nil {
 			sr.p.Fulfill(sr.result.ToPtr())
 		}
@@ -327,6 +336,7 @@ func (re *returnEmbargoer) Return(e error) {
 	re.err = e
 	close(re.returned)
 	re.mu.Unlock()
+	verifhook.Yield(231)
 	re.calls.Wait()
 }
 
@@ -346,6 +356,7 @@ func (re *returnEmbargoer) recv(ctx context.Context, transform []capnp.PipelineO
 		re.calls.Add(1)
 		defer re.calls.Done()
 		re.mu.Unlock()
+		verifhook.Yield(232)
 		return re.pcall.PipelineRecv(ctx, transform, r)
 	}
 }
